@@ -313,7 +313,15 @@ class SymEngine:
     # ------------------------------------------------------------------ realisation
 
     def known_value(self, t):
-        return self.realized.get(t.get_id())
+        # keyed by AST id; the term is stored too (keeps it alive -- z3 reuses the ids of
+        # freed ASTs -- and is compared structurally)
+        ent = self.realized.get(t.get_id())
+        if ent is not None and z3.eq(ent[0], t):
+            return ent[1]
+        return None
+
+    def _remember(self, t, val):
+        self.realized[t.get_id()] = (t, val)
 
     def _finitely_valued(self, t) -> bool:
         """syntactic check: every variable in t is a bounded Int / Bool (or realised)"""
@@ -327,7 +335,7 @@ class SymEngine:
             seen.add(i)
             if z3.is_const(x) and x.decl().kind() == z3.Z3_OP_UNINTERPRETED:
                 if z3.is_real(x) and not z3.is_int(x):
-                    if x.get_id() in self.realized:
+                    if self.known_value(x) is not None:
                         continue
                     return False
             elif z3.is_app(x) and x.decl().kind() == z3.Z3_OP_UNINTERPRETED and x.num_args() > 0:
@@ -340,7 +348,7 @@ class SymEngine:
         st = z3.simplify(t)
         if z3.is_rational_value(st) or z3.is_int_value(st):
             return frac_of(st)
-        k = self.realized.get(t.get_id())
+        k = self.known_value(t)
         if k is not None:
             return k
         if not self._finitely_valued(t):
@@ -361,7 +369,7 @@ class SymEngine:
                 eqc = st == z3.RealVal(f"{val.numerator}/{val.denominator}")
                 self._add(eqc if outcome else z3.Not(eqc))
                 if outcome:
-                    self.realized[t.get_id()] = val
+                    self._remember(t, val)
                     return val
                 continue
             if len(self.decisions) >= self.max_decisions:
@@ -383,7 +391,7 @@ class SymEngine:
             keep = self.model
             self.solver.add(eqc)
             self.model = keep
-            self.realized[t.get_id()] = val
+            self._remember(t, val)
             return val
 
     def hash_of(self, q):
